@@ -98,6 +98,21 @@ def _gen_shake(tier, rng):
     n = rng.randrange(1, 6)
     total = max(2 * n, rng.choice([rng.randrange(2 * n, 5 * L + 3), L * rng.randrange(1, 4) + rng.choice([0, 1, 2])]))
     yield {'kind': 'shake', 'snips': _snips_with_total(rng, total, n), 'L': L}
+  # exhaustive small grid: every sequence length x every snippet length (one snippet, and split in two)
+  for L in (range(2, 6) if tier == 'quick' else range(2, 10)):
+    for k in range(0, (2 if tier == 'quick' else 3) * L + 3):
+      yield {'kind': 'shake', 'snips': [bytes(VOCAB[(i * 7 + k) % len(VOCAB)] for i in range(k)).hex()], 'L': L, 'metrics': False}
+      if k >= 1 and (tier != 'quick' or k % 2):
+        cut = k // 2
+        body = bytes(VOCAB[(i * 5 + L) % len(VOCAB)] for i in range(k))
+        yield {'kind': 'shake', 'snips': [body[:cut].hex(), body[cut:].hex()], 'L': L, 'metrics': False}
+  # size sweep: joined lengths and snippet counts at / around 256, 1000, 1024, 4096 (chunked or vectorised
+  # implementations break at such boundaries); judged by the oracle only
+  for n in ((256, 1024) if tier == 'quick' else (256, 512, 1000, 1024, 2048, 4096)):
+    for e in (-1, 0, 1):
+      yield {'kind': 'shake', 'snips': [bytes(VOCAB[i % len(VOCAB)] for i in range(n + e - 2)).hex()], 'L': 80, 'metrics': False}
+      yield {'kind': 'shake', 'snips': [b'a'.hex()] * ((n + e) // 3) + [b''.hex()] * ((n + e) % 3), 'L': 2 + (n + e) % 5, 'metrics': False}
+      yield {'kind': 'shake', 'snips': [bytes([VOCAB[i % len(VOCAB)]]).hex() for i in range(n + e)], 'L': 16, 'metrics': False}
   yield {'kind': 'shake', 'snips': [b'ab'.hex()], 'L': 1}    # outside the quantifier (L >= 2): only model agreement
   yield {'kind': 'shake', 'snips': [], 'L': 1}
 
@@ -119,6 +134,13 @@ def _gen_tok(tier, rng):
         ws.append(rng.choice(WORDS[:V]) if r < 0.7 else rng.choice(['zzz', 'Qx9', 'oov%d' % rng.randrange(50), WORDS[-1] + 'x', '0', '1', '2', '3', '[PAD]', '<bos>', 'The', 'THE']))
       sents.append(ws)
     yield {'kind': 'tok', 'vocab': WORDS[:V], 'buckets': buckets, 'max_length': ml, 'sentences': sents}
+
+
+def _gen_tok_big(tier, rng):
+  """Batches of 255 / 256 / 257 / 1024 ... short sentences (size-driven chunking of a vectorised tokenizer)."""
+  for n in ((256, 257) if tier == 'quick' else (255, 256, 257, 1000, 1023, 1024, 1025, 4096)):
+    sents = [[WORDS[(i + j) % 5] if (i + j) % 4 else 'zz%d' % (i % 3) for j in range(i % 4)] for i in range(n)]
+    yield {'kind': 'tok', 'vocab': WORDS[:5], 'buckets': 1, 'max_length': 3, 'sentences': sents, 'metrics': False}
 
 
 def _gen_crops(tier, rng):
@@ -208,13 +230,16 @@ def _generate(tier, rng):
     yield {'kind': 'lut', 'vocab': vocab.hex(), 'nr': nr}
   for i in range(2 if tier == 'quick' else 10):
     yield {'kind': 'plainnorm', 'seed': rng.randrange(2 ** 31)}
+  if tier == 'thorough':
+    yield {'kind': 'xproc', 'hashseeds': [1, 987654321]}
   for c in _gen_lmloss(tier, rng):
     yield c
-  for g in (_gen_shake, _gen_tok, _gen_crops, _gen_std, _gen_domain):
+  for g in (_gen_shake, _gen_tok, _gen_tok_big, _gen_crops, _gen_std, _gen_domain):
     for c in g(tier, rng):
       yield c
   for i in range({'quick': 6, 'thorough': 40, 'search': 12}[tier]):
-    yield {'kind': 'misc', 'which': ('emnist', 'cifar')[i % 2], 'n': [3, 0, 1, 2, 5, 4][i % 6], 'seed': rng.randrange(2 ** 31),
+    yield {'kind': 'misc', 'which': ('emnist', 'cifar')[i % 2], 'n': ([3, 0, 1, 2, 5, 4] + [255, 256, 257, 256, 1024, 1000])[i % (6 if tier == 'quick' else 12)],
+           'seed': rng.randrange(2 ** 31),
            'writer': rng.choice([2099, 2100, 2599, 2600, 0, 9999])}
   if tier != 'search':
     extra = ['emnist_stax_dense'] if tier == 'quick' else ['emnist_stax_dense', 'emnist_conv_digits', 'emnist_logistic_digits',
@@ -355,7 +380,13 @@ def _run_shake(case):
   same = lambda o: o['x'].dtype == x.dtype and np.array_equal(o['x'], kept[0]) and np.array_equal(o['y'], kept[1])
   forms_ok = True
   try:
-    for sn, cid, L in ((list(raw), 'client', np.int64(case['L'])), (tuple(raw), b'', np.int32(case['L'])), (snips, 0, case['L'])):
+    wide = np.empty(2 * len(raw) + 1, dtype=object)
+    wide[:] = b'unused'
+    wide[1::2] = raw                     # every-other-element view of a wider object array
+    ro = snips.copy()
+    ro.flags.writeable = False
+    for sn, cid, L in ((list(raw), 'client', np.int64(case['L'])), (tuple(raw), b'', np.int32(case['L'])), (snips, 0, case['L']),
+                       (wide[1::2], b'c', case['L']), (ro, b'c', case['L']), (snips[::-1][::-1], b'c', case['L'])):
       forms_ok = forms_ok and same(shakespeare.preprocess_client(cid, {'snippets': sn, 'other': np.zeros(1)}, L))
     shakespeare.preprocess_client(b'c2', {'snippets': [b'zz' + bytes([i % 256]) for i in range(3)]}, max(2, case['L']))
   except Exception:  # pylint: disable=broad-except
@@ -439,7 +470,10 @@ def _run_tok(case):
     other = _cached(('tokfn', key, ml + 2), lambda: tok.as_preprocess_batch(ml + 2))   # another function of the SAME tokenizer, used in between
     other({'tokens': toks})
     fixed = np.array([bytes(t) for t in toks], dtype='S') if len(toks) else np.zeros((0,), 'S1')
-    for form in (fixed, toks.copy()):
+    wide_t = np.empty(2 * len(toks) + 1, dtype=object)
+    wide_t[:] = b'unused words'
+    wide_t[1::2] = toks
+    for form in (fixed, toks.copy(), wide_t[1::2]):
       o2 = fn({'tokens': form})                         # the same function object again
       ok = ok and sorted(o2) == ['x', 'y'] and np.array_equal(o2['x'], x) and np.array_equal(o2['y'], y)
     if sum(len(ws) for ws in case['sentences']) % 3 == 0:
@@ -460,7 +494,7 @@ def _run_tok(case):
   except Exception:  # pylint: disable=broad-except
     ok = False
   obs['forms_ok'] = bool(ok)
-  if case['buckets'] == 1:
+  if case['buckets'] == 1 and case.get('metrics', True):
     from fedjax.models import stackoverflow as mso
     V = len(case['vocab'])
     model = _cached(('so_model', V), lambda: mso.create_lstm_model(vocab_size=V, lstm_hidden_size=4, embed_size=2))
@@ -665,6 +699,39 @@ def _run_domain(case):
   return obs
 
 
+_XPROC_SCRIPT = '''
+import json, sys
+sys.path.insert(0, %r)
+import numpy as np
+from fedjax.datasets import shakespeare, stackoverflow, emnist
+out = {}
+o = shakespeare.preprocess_client(b'c', {'snippets': [b'To be, or not', b'', b'\\x00\\x01\\x02 ~']}, 5)
+out['shake'] = [o['x'].tolist(), o['y'].tolist()]
+tok = stackoverflow.StackoverflowTokenizer(vocab=['the', 'a', 'to'], num_oov_buckets=3)
+t = tok.as_preprocess_batch(6)({'tokens': np.array([b'the zzz a qqq to www', b'', b'Qx9 oov1 oov2 oov3 oov4'], dtype=object)})
+out['tok'] = [t['x'].tolist(), t['y'].tolist()]
+out['domain'] = [emnist.domain_id(b'0123456789abcdef:f2100_01'), emnist.domain_id(b'f2600_01')]
+print('RESULT' + json.dumps(out))
+'''
+
+
+def _run_xproc(case):
+  """The same preprocessing in two fresh interpreters with different PYTHONHASHSEED (OOV bucket choice included)."""
+  import json
+  import os
+  import subprocess
+  import sys
+  res = []
+  for seed in case['hashseeds']:
+    p = subprocess.run([sys.executable, '-c', _XPROC_SCRIPT % os.path.dirname(os.path.dirname(os.path.abspath(__file__)))],
+                       env=dict(os.environ, PYTHONHASHSEED=str(seed)), capture_output=True, text=True, timeout=900)
+    line = [l for l in p.stdout.split('\n') if l.startswith('RESULT')]
+    if not line:
+      return {'status': 'error', 'err': (p.stderr or p.stdout)[-300:]}
+    res.append(json.loads(line[0][6:]))
+  return {'status': 'ok', 'same': res[0] == res[1], 'first': res[0]}
+
+
 def _run_misc(case):
   """Thin wrappers and remaining entry points of the packaged datasets, each against its documented meaning."""
   from fedjax.datasets import cifar100, emnist
@@ -685,6 +752,14 @@ def _run_misc(case):
       bad.append('emnist.preprocess_batch: x != 1 - pixels or y / domain_id not passed through')
     if any(not np.array_equal(ex[k], keep[k]) for k in keep) or sorted(ex) != sorted(keep):
       bad.append('emnist.preprocess_batch modified its input')
+    if n:
+      pf = np.asfortranarray(pix)
+      pr = pix.copy()
+      pr.flags.writeable = False
+      for v in (pf, pr, np.concatenate([pix, pix])[::2][:n] if False else np.repeat(pix, 2, axis=0)[::2]):
+        o2 = emnist.preprocess_batch({'pixels': v, 'label': lab, 'domain_id': dom})
+        if not np.array_equal(o2['x'], out['x']):
+          bad.append('emnist.preprocess_batch depends on the memory layout of pixels')
     import fedjax
     cid = b'0123456789abcdef:f%04d_01' % case['writer']
     fd = emnist.preprocess_split(fedjax.InMemoryFederatedData({cid: {'pixels': pix, 'label': lab}}))
@@ -720,6 +795,24 @@ def _run_misc(case):
       view = cifar100.preprocess_image_tff(np.concatenate([img, img], axis=0)[::2][:n] if False else img[::-1][::-1], 24, 24, False)
       if float(np.max(np.abs(one[0] - direct[1]))) > 1e-5 or not np.array_equal(view, direct):
         bad.append('preprocess_image_tff: an image alone / a strided input differs from the same image in the batch')
+    # memory layouts of the image batch: Fortran order, read-only, every-other-image slice of a wider batch,
+    # a transposed view of a (W, H) stored batch, negative strides
+    if n:
+      wide = np.zeros((2 * n, 32, 32, 3), np.uint8)
+      wide[::2] = img
+      tv = np.ascontiguousarray(img.transpose(0, 2, 1, 3)).transpose(0, 2, 1, 3)
+      ro = img.copy()
+      ro.flags.writeable = False
+      for nm, v in (('F-ordered', np.asfortranarray(img)), ('strided', wide[::2]), ('transposed view', tv), ('read-only', ro),
+                    ('reversed', img[::-1, ::-1][::-1, ::-1])):
+        for fn, want_ in ((lambda a: cifar100.preprocess_image_tff(a, 24, 24, False), direct),
+                          (lambda a: cifar100.preprocess_image(a, is_train=False), ev['x'])):
+          try:
+            got_ = fn(v)
+            if got_.shape != want_.shape or float(np.max(np.abs(got_ - want_))) > 1e-5:
+              bad.append(f'a {nm} image batch is preprocessed differently from the same images in C order')
+          except Exception as ex_:  # pylint: disable=broad-except
+            bad.append(f'a {nm} image batch is rejected: {type(ex_).__name__}')
     if not np.array_equal(img, keep):
       bad.append('a cifar100 preprocessing function modified the uint8 images it was given')
     tr = cifar100.preprocess_batch({'x': img, 'y': pc['y']}, is_train=True)
@@ -1007,6 +1100,8 @@ def run(case):
       return _run_lmloss(case)
     if k == 'misc':
       return _run_misc(case)
+    if k == 'xproc':
+      return _run_xproc(case)
     if k == 'lut':
       return _run_lut(case)
     if k == 'plainnorm':
@@ -1252,6 +1347,10 @@ def oracle(case, obs):
     return _oracle_domain(case, obs)
   if k == 'misc':
     return [(f'misc-{case["which"]}', '; '.join(obs['bad']))] if obs['bad'] else []
+  if k == 'xproc':
+    if obs['status'] != 'ok':
+      return [('xproc-error', 'the preprocessors could not be run in a fresh process: ' + obs.get('err', ''))]
+    return [] if obs['same'] else [('xproc-differs', 'the same preprocessing gives different labels in two processes with different PYTHONHASHSEED')]
   if k == 'lut':
     vocab, nr = bytes.fromhex(case['vocab']), case['nr']
     want = [nr + vocab.rfind(bytes([c])) if bytes([c]) in vocab else nr + len(vocab) for c in range(256)]
@@ -1400,7 +1499,8 @@ def encode(case, obs):
     o = 'ORaise' if obs['status'] != 'ok' else f'OId {obs["d"]}'
   else:
     return None
-  return f'(({c}, {o}))%Z'
+  term = f'(({c}, {o}))%Z'
+  return term if len(term) <= 20000 else None      # very large cases (size sweeps) are judged by the oracle only
 
 
 # --------------------------------------------------------------------------
